@@ -6,10 +6,10 @@ WT="$1"; SD="$2"; ID="$3"; PROP="$4"
 cd "$WT" || exit 2
 git checkout -q -- src 2>/dev/null
 git apply --check "$SD/patch.diff" || { echo "PATCH DOES NOT APPLY"; exit 2; }
-PYTHONPATH="$WT/src" timeout 600 /venv/bin/python "$SD/demo.py" >/tmp/wt/demo_clean.log 2>&1; C=$?
+PYTHONPATH="$WT/src" timeout 600 /venv/bin/python "$SD/demo.py" >/tmp/demo_clean.log 2>&1; C=$?
 git apply "$SD/patch.diff"
-PYTHONPATH="$WT/src" timeout 600 /venv/bin/python "$SD/demo.py" >/tmp/wt/demo_patched.log 2>&1; P=$?
-SUITE=$(NJOBS=${NJOBS:-8} /tmp/wt/tools/run_tests.sh "$WT")
+PYTHONPATH="$WT/src" timeout 600 /venv/bin/python "$SD/demo.py" >/tmp/demo_patched.log 2>&1; P=$?
+SUITE=$(NJOBS=${NJOBS:-8} /verif/tools/run_tests.sh "$WT")
 git checkout -q -- src
 echo "demo clean exit=$C patched exit=$P; $SUITE"
 if [ "$C" = 0 ] && [ "$P" != 0 ] && echo "$SUITE" | grep -q "354 of 354; now failing: 0"; then
